@@ -156,6 +156,33 @@ Definition not_invented (c : sim_case) : bool :=
                         end) (sc_stim c))
           (sc_mticks c).
 
+(* every update of a device has a cause: the initial tick; its own pending callback (the request of
+   its latest answer that carried one, not yet served) falling due exactly now; an interrupt of that
+   device stamped now; or a device wired into it (through any system boundary) updated earlier in
+   the same tick.  A superseded or made-up wake-up has none. *)
+Fixpoint caused (fc : list conn) (devs : dev_table) (init : Z) (ints : list (comp * Z))
+         (cnt : list (comp * Z)) (pend : list (comp * Z)) (curt : Z) (cur : list comp) (tr : list obs) : bool :=
+  match tr with
+  | [] => true
+  | (c, t, inputs) :: r =>
+      let cur' := if Z.eqb t curt then cur else [] in
+      let n := (match lookup c cnt with Some x => x | None => 0 end) + 1 in
+      let due := opt_eqb Z.eqb (lookup c pend) (Some t) in
+      let ok := Z.eqb t init || due
+                || existsb (fun e : comp * Z => Pos.eqb (fst e) c && Z.eqb (snd e) t) ints
+                || existsb (fun k : conn => Pos.eqb (in_comp k) c && memb (out_comp k) cur') fc in
+      let pend1 := if due then remove_key c pend else pend in
+      let pend2 := match snd (table_dev devs c n t inputs) with Some w => upd c w pend1 | None => pend1 end in
+      ok && caused fc devs init ints (upd c n cnt) pend2 t (cur' ++ [c]) r
+  end.
+
+Definition interrupt_stamps (c : sim_case) : list (comp * Z) :=
+  flat_map (fun s : stimulus =>
+              match stamp_of (sc_num c) (sc_den c) (sc_mticks c) (fst (fst (fst s))) with
+              | Some st => [(snd (fst (fst s)), st)]
+              | None => []
+              end) (sc_stim c).
+
 (* ---------- C12: pacing.  never early: (r' - r) * speed >= t' - t between consecutive ticks *)
 Fixpoint never_early (num den : Z) (l : list (Z * Z)) : bool :=
   match l with
@@ -178,13 +205,16 @@ Definition devices_of (cfg : config) : list comp :=
 
 (* reason codes:
    61/62 initial tick (C05); 81 stale / lost / misrouted input value (C03);
-   65 callback not honoured, 66 tick time invented (C06); 96 tick started early (C12);
+   65 callback not honoured, 66 tick time invented, 67 device updated without a cause (C06);
+   96 tick started early (C12);
    46 tick times of a scheduler decrease (C04) *)
 Definition oracle_sim (c : sim_case) : list Z :=
   initial_ok (devices_of (sc_cfg c)) (sc_initial c) (sc_trace c) ++
   (if latest_ok (flat_conns (sc_cfg c)) (sc_devs c) [] [] (sc_trace c) then [] else [81]) ++
   (if honoured (sc_devs c) [] (last (map fst (sc_mticks c)) (sc_initial c)) (sc_trace c) then [] else [65]) ++
   (if not_invented c then [] else [66]) ++
+  (if caused (flat_conns (sc_cfg c)) (sc_devs c) (sc_initial c) (interrupt_stamps c) [] [] (sc_initial c) [] (sc_trace c)
+   then [] else [67]) ++
   (if never_early (sc_num c) (sc_den c) (sc_mticks c) then [] else [96]) ++
   (if forallb (fun lv => nondecreasing (map fst (log_of_level lv (sc_ticklog c)))) (keys (sc_cfg c)) then [] else [46]).
 
